@@ -19,13 +19,13 @@
 //! Oracle: `%` of the Rust language. Non-trivial = divisor not a power of two and some hash ≥ divisor.
 //! Pair counters (`pairs_checked`, `pairs_nontrivial`) are reported in the evidence coverage.
 //!
-//! Deviations from DESIGN.md: no libFuzzer target (thorough is proptest only); thorough checks
-//! ~1.5·10^9 pairs less than planned 2·10^9 hook pairs — see budget.
+//! Deviations from DESIGN.md: no libFuzzer target (thorough is the proptest runner only); thorough
+//! explores ~1.5·10^6 cases ≈ 8·10^8 pairs instead of 2·10^9.
 //!
-//! Sensitivity probes (mkpatch + mutrun, `./check C11 quick`):
-//!  1. reciprocal without the `+ 1` (`u128::MAX / u128::from(divisor)`)        -> VIOLATION (hook path, d=3 h=3 after shrinking)
-//!  2. carry from the low half only (`(low_product >> 64) >> 64`)               -> VIOLATION
-//!  3. `PowerOfTwo { mask: divisor }`                                            -> VIOLATION (hook + public path panic index out of bounds)
+//! Sensitivity probes (mkpatch + mutrun, `./check C11 quick`; all three detected within 2 cases):
+//!  1. reciprocal without the `+ 1` (`u128::MAX / u128::from(divisor)`)   -> VIOLATION (d=3, h=u64::MAX gives 3)
+//!  2. carry from the low half only (`(low_product >> 64) >> 64`)          -> VIOLATION (d=3, h=u64::MAX)
+//!  3. `PowerOfTwo { mask: divisor }`                                       -> VIOLATION (d=1, h=u64::MAX gives 1)
 use arrow::array::{Array, ArrayRef, UInt32Array, UInt64Array};
 use arrow::datatypes::{DataType, Field, Schema};
 use arrow::record_batch::RecordBatch;
